@@ -3,12 +3,14 @@ package main
 import (
 	"bytes"
 	"fmt"
+	"io"
 	"math/rand"
 	"os"
 	"os/exec"
 	"path/filepath"
 	"regexp"
 	"strings"
+	"syscall"
 	"time"
 
 	"verif/lib"
@@ -115,7 +117,7 @@ func c18Pairs(seed int64, n int) [][2]string {
 // failures give a non-zero exit status and no report on stdout.
 func c18(tier string) {
 	ctx := lib.NewCtx("C18", tier)
-	ctx.Rule = "(profile, data) pairs (reports from 1 KiB to >300 KiB; data files from 64 KiB to 4.5 MiB around the 1 MiB mark and a 1.2 MiB profile file; percent signs, quotes and placeholders in names, messages and node ids; source maps; conforming and non-conforming) x sub-commands validate (stdout and file), generate, normalize, compile x prior states of the output path (absent, empty, shorter, longer garbage, a previous longer report, equal length, read-only, directory, dangling symlink, symlink to a file, missing parent directory) and sequences long -> short -> long into one file; the library's answer is computed by a fresh harness process (generated names are numbered per process), dateCreated is required to parse as RFC 3339 and masked on both sides, nothing else is masked; failure classes: missing/extra arguments, unknown command, unreadable paths, malformed profile, malformed data, injected ENOSPC on the output file; " +
+	ctx.Rule = "(profile, data) pairs (reports from 1 KiB to >300 KiB; data files from 64 KiB to 4.5 MiB around the 1 MiB mark and a 1.2 MiB profile file; percent signs, quotes and placeholders in names, messages and node ids; source maps; conforming and non-conforming) x sub-commands validate (stdout and file), generate, normalize, compile x invocation styles (relative paths from other working directories, file names with blanks / non-ASCII letters, empty and unusual environments, relative output paths, data / profile read from a named pipe or from standard input) x prior states of the output path (absent, empty, shorter, longer garbage, a previous longer report, equal length, read-only, directory, dangling symlink, symlink to a file, missing parent directory, the output path naming the data file / a symlink to it / a hard link to the profile) and sequences long -> short -> long into one file; the library's answer is computed by a fresh harness process (generated names are numbered per process), dateCreated is required to parse as RFC 3339 and masked on both sides, nothing else is masked; failure classes: missing/extra arguments, unknown command, unreadable paths, malformed profile, malformed data, injected ENOSPC on the output file; " +
 		"non-trivial & distinct = (pair, sub-command, prior state) whose expected output is a non-empty report / policy / normalised input"
 	ctx.Assumptions = []string{"stdout carries the output followed by exactly one newline (Println); the file holds exactly the report", "the check runs as root: a read-only output file is writable, it must then hold exactly the report"}
 	n := ctx.N(32, 120)
@@ -133,7 +135,8 @@ func c18(tier string) {
 	tmp, _ := os.MkdirTemp("", "c18")
 	defer os.RemoveAll(tmp)
 	pairs := c18Pairs(ctx.Seed, n)
-	states := []string{"absent", "empty", "shorter", "longer-garbage", "longer-report", "equal-length", "read-only", "symlink-to-file", "dangling-symlink"}
+	states := []string{"absent", "empty", "shorter", "longer-garbage", "longer-report", "equal-length", "read-only", "symlink-to-file", "dangling-symlink",
+		"is-the-data-file", "is-a-symlink-to-the-data-file", "is-a-hard-link-to-the-profile-file"}
 	ctx.ForEach(len(pairs), func(i int) {
 		r := lib.CaseRand(ctx.Seed, 18, i)
 		dir := filepath.Join(tmp, fmt.Sprintf("case%d", i))
@@ -157,10 +160,87 @@ func c18(tier string) {
 			base["stdout"], base["library"] = clip(res.stdout, 3000), clip(lib1.stdout, 3000)
 			ctx.Violation("stdout-differs", fmt.Sprintf("pair %d: `acv validate` exit=%d, stdout (%d bytes) differs from the library's report (%d bytes) + newline%s", i, res.exit, len(res.stdout), len(lib1.stdout), firstDiff(got, want+"\n")), base)
 		}
+		// --- the same call written differently: relative paths from another working directory, file names with blanks
+		// and non-ASCII letters, a stripped or unusual environment, a closed standard input
+		{
+			odd := filepath.Join(dir, "dir with blank é")
+			_ = os.MkdirAll(odd, 0o755)
+			opf, odf := filepath.Join(odd, "my profile ü.yaml"), filepath.Join(odd, "data file (1).jsonld")
+			_ = os.WriteFile(opf, []byte(pairs[i][0]), 0o644)
+			_ = os.WriteFile(odf, []byte(pairs[i][1]), 0o644)
+			type style struct {
+				name string
+				cwd  string
+				args []string
+				env  []string
+				out  string // relative or absolute output path ("" = stdout)
+			}
+			styles := []style{
+				{"relative-paths", dir, []string{"profile.yaml", "./data.jsonld"}, nil, ""},
+				{"relative-paths-with-dotdot", odd, []string{"../profile.yaml", "../dir with blank é/../data.jsonld"}, nil, ""},
+				{"odd-file-names", dir, []string{opf, odf}, nil, ""},
+				{"empty-environment", "/", []string{pf, df}, []string{}, ""},
+				{"unusual-environment", dir, []string{pf, df}, []string{"HOME=/nonexistent", "TMPDIR=/nonexistent", "LANG=C", "NO_COLOR=1", "GOMAXPROCS=1", "GODEBUG=", "PWD=/somewhere/else", "PATH="}, ""},
+				{"relative-output-path", odd, []string{"../profile.yaml", "../data.jsonld"}, nil, "out rel.jsonld"},
+				{"relative-output-path-dotdot", odd, []string{opf, odf}, []string{"HOME=/nonexistent"}, "../out-rel2.jsonld"},
+			}
+			// inputs that are not regular files: a named pipe, and standard input fed by a pipe
+			fifo := filepath.Join(dir, "data.fifo")
+			_ = syscall.Mkfifo(fifo, 0o644)
+			styles = append(styles, style{"data-from-a-named-pipe", dir, []string{pf, fifo}, nil, ""},
+				style{"data-from-/dev/stdin", dir, []string{pf, "/dev/stdin"}, nil, ""},
+				style{"profile-from-/dev/stdin", dir, []string{"/dev/stdin", df}, nil, ""})
+			for si, st := range styles {
+				if ctx.Quick() && (si+i)%2 != 0 {
+					continue
+				}
+				args := append([]string{"validate"}, st.args...)
+				if st.out != "" {
+					args = append(args, st.out)
+				}
+				cmd := exec.Command(acv, args...)
+				cmd.Dir = st.cwd
+				if st.env != nil {
+					cmd.Env = st.env
+				}
+				var so, se bytes.Buffer
+				cmd.Stdout, cmd.Stderr = &so, &se
+				switch st.name {
+				case "data-from-/dev/stdin":
+					cmd.Stdin = io.MultiReader(strings.NewReader(pairs[i][1])) // not an *os.File: the child gets a pipe
+				case "profile-from-/dev/stdin":
+					cmd.Stdin = io.MultiReader(strings.NewReader(pairs[i][0]))
+				case "data-from-a-named-pipe":
+					go func(text string) {
+						if f, err := os.OpenFile(fifo, os.O_WRONLY, 0); err == nil {
+							_, _ = f.WriteString(text)
+							_ = f.Close()
+						}
+					}(pairs[i][1])
+				}
+				err := cmd.Run()
+				ctx.Eval(fmt.Sprintf("%d/validate/style/%s", i, st.name))
+				ctx.Count("invocations", 1)
+				ctx.Count("invocation_style:"+st.name, 1)
+				emitted := so.String()
+				if st.out != "" {
+					b, _ := os.ReadFile(filepath.Join(st.cwd, st.out))
+					emitted = string(b) + "\n"
+					if strings.TrimSpace(so.String()) != "" {
+						emitted = "STDOUT NOT EMPTY: " + so.String()
+					}
+				}
+				gotS, dOK := maskDate(emitted)
+				if err != nil || gotS != want+"\n" || !dOK {
+					base["style"], base["stdout"], base["stderr"], base["library"] = st.name, clip(so.String(), 2000), clip(se.String(), 1000), clip(lib1.stdout, 2000)
+					ctx.Violation("invocation-style-differs", fmt.Sprintf("pair %d, `acv validate` called in style %s: err=%v, what it emitted (%d bytes) differs from the library's report (%d bytes)%s", i, st.name, err, len(emitted), len(lib1.stdout), firstDiff(gotS, want+"\n")), base)
+				}
+			}
+		}
 		// --- validate to a file, for every prior state
 		other := pairs[(i+1)%len(pairs)]
 		for si, st := range states {
-			if ctx.Quick() && (si+i)%3 != 0 && st != "longer-report" && st != "longer-garbage" {
+			if ctx.Quick() && (si+i)%3 != 0 && st != "longer-report" && st != "longer-garbage" && !(strings.HasPrefix(st, "is-") && i%4 == si%4) {
 				continue
 			}
 			out := filepath.Join(dir, "out-"+st+".jsonld")
@@ -191,7 +271,23 @@ func c18(tier string) {
 				_ = os.Remove(target)
 				_ = os.Symlink(target, out)
 			}
-			res := runCLI(acv, "validate", pf, df, out)
+			spf, sdf := pf, df
+			switch st {
+			// the output path names one of the inputs: the inputs are read first, the report replaces the file
+			case "is-the-data-file":
+				sdf = filepath.Join(dir, "data-copy-1.jsonld")
+				_ = os.WriteFile(sdf, []byte(pairs[i][1]), 0o644)
+				out = sdf
+			case "is-a-symlink-to-the-data-file":
+				sdf = filepath.Join(dir, "data-copy-2.jsonld")
+				_ = os.WriteFile(sdf, []byte(pairs[i][1]), 0o644)
+				_ = os.Symlink(sdf, out)
+			case "is-a-hard-link-to-the-profile-file":
+				spf = filepath.Join(dir, "profile-copy.yaml")
+				_ = os.WriteFile(spf, []byte(pairs[i][0]), 0o644)
+				_ = os.Link(spf, out)
+			}
+			res := runCLI(acv, "validate", spf, sdf, out)
 			b, err := os.ReadFile(out)
 			gotF, dOK := maskDate(string(b))
 			ctx.Eval(fmt.Sprintf("%d/validate/file/%s", i, st))
